@@ -125,6 +125,10 @@ def domain(tier, seed):
     cases = [("prefix", n, k) for n in ("history", "objectdb") for k in range(len(new[n]) + 1)]
     cases += [("prefix-old", n, k) for n in ("history", "objectdb") for k in range(0, len(old[n]) + 1, 3 if tier == "quick" else 1)]
     cases += [("op", "", k) for k in range(1, 40)]
+    # the process dies after exactly k bytes have gone through write() on the data files during the REAL close() (whatever way the save opens,
+    # overwrites or truncates the files): every k up to the total the two pickles need, and a margin for variants that write more
+    total = len(new["history"]) + len(new["objectdb"]) + 64
+    cases += [("byte", "", k) for k in range(0, total)]
     return cases
 
 
@@ -155,17 +159,32 @@ def run_case(case):
         count = [0]
         real_open = builtins.open
 
+        bytes_mode = kind == "byte"
+        written = [0]
+
         def tick():
+            if bytes_mode:
+                return
             count[0] += 1
             if count[0] == k:
                 raise _Crash()
 
         class F:
-            def __init__(self, f):
+            def __init__(self, f, counted=True):
                 self._f = f
+                self._counted = counted
 
             def write(self, data):
                 tick()
+                if bytes_mode and self._counted:
+                    room = k - written[0]
+                    if len(data) > room:
+                        # the process dies inside this write: only the first `room` bytes reach the file
+                        self._f.write(data[:room])
+                        self._f.flush()
+                        written[0] += room
+                        raise _Crash()
+                    written[0] += len(data)
                 return self._f.write(data)
 
             def truncate(self, *a):
@@ -187,7 +206,8 @@ def run_case(case):
         def tracing_open(path, mode="r", *a, **kw):
             if ".ropeproject" in str(path) and any(c in mode for c in "wa+"):
                 tick()
-                return F(real_open(path, mode, *a, **kw))
+                # (the .json side files are never read by rope: their bytes are not counted)
+                return F(real_open(path, mode, *a, **kw), counted=not str(path).endswith(".json"))
             return real_open(path, mode, *a, **kw)
 
         real_replace, real_rename = os.replace, os.rename
@@ -210,10 +230,10 @@ def run_case(case):
             del rp_mod.open
             os.replace, os.rename = real_replace, real_rename
         if not crashed:
-            return {"status": "skip", "why": "close() performs fewer than %d data-file operations" % k}
+            return {"status": "skip", "why": "close() performs fewer than %d data-file %s" % (k, "bytes" if bytes_mode else "operations")}
         r = _use(root, allowed)
         if r:
-            return {"status": "fail", "why": "process dies before data-file operation %d of close(): %s" % (k, r[0]),
+            return {"status": "fail", "why": "process dies %s of close(): %s" % ("after %d data-file bytes" % k if bytes_mode else "before data-file operation %d" % k, r[0]),
                     "clause": "a crash state of the save opens and is usable", "observed": {"exception": r[1]}}
         return {"status": "ok"}
     finally:
